@@ -113,6 +113,9 @@ type Action struct {
 	Rst             bool
 	ErrorCode       int16  // answer with this code instead of applying
 	ErrorField      string // "top", "topic", "partition" ("" = the API's most specific level)
+	// ErrorSkipFirst (OffsetCommit): the code is reported for (and keeps the broker from applying) every partition entry
+	// of a topic except the first one: a refusal that concerns some partitions of a request only.
+	ErrorSkipFirst bool
 	Chunk           int    // deliver the response in reads of at most Chunk bytes
 	Hold            <-chan struct{}
 	Mutate          func(body map[string]any) // last-minute change of the response body
